@@ -449,7 +449,7 @@ def run(tier, pid="C09"):
             ("MCStreamConv", "sc_exp2.cfg", {}, True),
             ("MCStreamConv", "sc_exp2c.cfg", {}, True),
             ("MCStreamConv", "sc_exp3.cfg", {}, True),
-            (sim_mod, "sc_simR.cfg", dict(simulate=dict(num=120, depth=80), seed=rep.seed + 1), True),
+            (sim_mod, "sc_simR.cfg", dict(simulate=dict(num=200, depth=80), seed=rep.seed + 1), True),
         ]
     else:
         jobs = [
@@ -457,6 +457,7 @@ def run(tier, pid="C09"):
             ("MCStreamConv", "sc_exp2.cfg", {}, True),
             ("MCStreamConv", "sc_exp2c.cfg", {}, True),
             ("MCStreamConv", "sc_exp3.cfg", {}, True),
+            ("MCStreamConv", "sc_exp3T.cfg", {}, True),
             ("MCStreamConv", "sc_expT1.cfg", {}, True),
             ("MCStreamConv", "sc_mcT1.cfg", {}, False),
             ("MCStreamConv", "sc_mc2.cfg", {}, False),
